@@ -139,6 +139,10 @@ Section Codec.
   Qed.
 End Codec.
 
+(** the section hypothesis is satisfiable: any 32-byte id *)
+Example codec_section_inhabited : length (repeat 7 32) = ID_SIZE.
+Proof. reflexivity. Qed.
+
 (** The property-level statement: the frame built from (id, ttl: u32, flags: u16, payload) has the 36-byte
     header followed by the payload; id and flags read back as built; the TTL reads back modulo 2^16 -- equal
     to the TTL it was built with exactly when that is within the 16-bit wire range. *)
